@@ -6,10 +6,14 @@ package main
 // the projected abstract state are logged as one ndjson line.
 
 import (
+	"bytes"
 	"encoding/json"
 	"fmt"
 	"reflect"
+	"runtime"
 	"runtime/debug"
+	"time"
+	"strconv"
 	"strings"
 	"sort"
 
@@ -58,8 +62,16 @@ type AbsState struct {
 	CBind  []CEntry            `json:"cbind"`
 	Data   map[string]int      `json:"data"`
 	RData  map[string]int      `json:"rdata"`
+	Nid    int                 `json:"nid"`
+	Ucs    []AbsUc             `json:"ucs"`
+	HasUc  []UcKey             `json:"hasuc"`
 	Res    map[string]bool     `json:"res"`  // peer resolvable by SKI
 	ResA   map[string]bool     `json:"resa"` // peer resolvable by device address
+}
+type UcKey struct {
+	E     string `json:"e"`
+	Actor string `json:"actor"`
+	Name  string `json:"name"`
 }
 type FeatVer struct {
 	F string `json:"f"`
@@ -84,6 +96,16 @@ type TraceLine struct {
 	St  *AbsState          `json:"st"`
 	Ret string             `json:"ret"`
 	Pan string             `json:"panic"`
+	Cbf []CbFire           `json:"cbf"`
+}
+
+// CbFire: one invocation of a response / result callback registered by the harness
+type CbFire struct {
+	K    string `json:"k"`
+	Cb   int    `json:"cb"`
+	Kind string `json:"kind"`
+	H    int    `json:"h"`
+	Good bool   `json:"good"`
 }
 
 func isNilIface(v any) bool {
@@ -289,6 +311,8 @@ func (s *System) step(a Action) (line TraceLine) {
 			}
 		}
 	}
+	s.quiesce()
+	line.Cbf = s.drainCbf()
 	line.Ev = s.drainEvents()
 	line.St = s.project()
 	return
@@ -300,6 +324,30 @@ func (s *System) exec(a Action, p *Peer, line *TraceLine) (injected uint64) {
 	switch kind {
 	case "connect":
 		p.reader = s.dev.SetupRemoteDevice(p.ski, p.w)
+		if s.needOffsets {
+			// message counters are per connection; keep the counters of different connections apart so that
+			// "the id of a request" is unambiguous in the abstraction (callbacks are keyed by counter only)
+			idx := 0
+			for i, n := range s.topo.Peers {
+				if n == p.name {
+					idx = i
+				}
+			}
+			if rd := s.dev.RemoteDeviceForSki(p.ski); rd != nil {
+				for i := 0; i < 300*idx; i++ {
+					_ = rd.Sender().ResultSuccess(&model.HeaderType{AddressSource: s.remoteAddr(p, "nm"), AddressDestination: s.nmLocal(), MsgCounter: ptr(model.MsgCounterType(1))}, s.nmLocal())
+				}
+				var keep [][]byte
+				for _, m := range p.w.drain() {
+					if !bytes.Contains(m, []byte(`"cmdClassifier":"result"`)) {
+						keep = append(keep, m)
+					}
+				}
+				for _, m := range keep {
+					p.w.WriteShipMessageWithPayload(m)
+				}
+			}
+		}
 	case "discover":
 		ents := append([]string{"0"}, a.strs("ents")...)
 		var ref *uint64
@@ -402,7 +450,65 @@ func (s *System) exec(a Action, p *Peer, line *TraceLine) (injected uint64) {
 		if cls := a.str("cls"); cls == "reply" || cls == "result" {
 			ref = ptr(uint64(424242)) // well-formed replies/results carry a reference (here: to no request of ours)
 		}
+		if h := a.num("ref"); h > 0 && h <= len(s.idCtr) {
+			ref = ptr(s.idCtr[h-1])
+		}
+		s.curRecv = a
 		injected = s.inject(p, model.CmdClassifierType(a.str("cls")), s.remoteAddr(p, a.str("c")), s.localAddr(a.str("s")), ack, ref, cmd)
+	case "adduc", "remuc", "setav", "remall":
+		ent := s.lents[a.str("e")]
+		actor, name := model.UseCaseActorType(a.str("actor")), model.UseCaseNameType(a.str("name"))
+		switch kind {
+		case "adduc":
+			var sc []model.UseCaseScenarioSupportType
+			for _, x := range strings.Split(a.str("sc"), ",") {
+				n, _ := strconv.Atoi(x)
+				sc = append(sc, model.UseCaseScenarioSupportType(n))
+			}
+			ent.AddUseCaseSupport(actor, name, model.SpecificationVersionType(a.str("ver")), "release", a.boolean("av"), sc)
+		case "remuc":
+			ent.RemoveUseCaseSupport(actor, name)
+		case "setav":
+			ent.SetUseCaseAvailability(actor, name, a.boolean("av"))
+		case "remall":
+			ent.RemoveAllUseCaseSupports()
+		}
+	case "lreq":
+		rd := s.dev.RemoteDeviceForSki(p.ski)
+		var rf api.FeatureRemoteInterface
+		if rd != nil {
+			rf = rd.FeatureByAddress(s.remoteAddr(p, "s14"))
+		}
+		if rf == nil || isNilIface(rf) {
+			line.Ret = "nofeature"
+			break
+		}
+		ctr, err := s.lfeat[a.str("k")].RequestRemoteData(fnMap["limit"], nil, nil, rf)
+		if err != nil || ctr == nil {
+			line.Ret = "err"
+			break
+		}
+		line.Ret = fmt.Sprintf("h%d", s.idOf(uint64(*ctr)))
+	case "addcb":
+		h := a.num("h")
+		if h < 1 || h > len(s.idCtr) {
+			panic("addcb: unknown id")
+		}
+		var err error
+		if a.num("cb") == 1 {
+			err = s.lfeat[a.str("k")].AddResponseCallback(model.MsgCounterType(s.idCtr[h-1]), s.respCb1(a.str("k")))
+		} else {
+			err = s.lfeat[a.str("k")].AddResponseCallback(model.MsgCounterType(s.idCtr[h-1]), s.respCb2(a.str("k")))
+		}
+		if err != nil {
+			line.Ret = "err"
+		}
+	case "addrcb":
+		if a.num("cb") == 1 {
+			s.lfeat[a.str("k")].AddResultCallback(s.resCb1(a.str("k")))
+		} else {
+			s.lfeat[a.str("k")].AddResultCallback(s.resCb2(a.str("k")))
+		}
 	case "setdata":
 		s.lfeat[a.str("s")].SetData(fnMap[a.str("fn")], mkData(a.str("fn"), a.num("v")))
 	case "lsub", "lbind", "lunsub", "lunbind":
@@ -450,7 +556,7 @@ func emptyData(fn string) any {
 
 func (s *System) project() *AbsState {
 	st := &AbsState{Conn: []string{}, Known: map[string][]string{}, Feats: map[string][]FeatVer{}, Subs: []RegEntry{}, Binds: []RegEntry{}, SubIds: []uint64{}, BindIds: []uint64{},
-		CSub: []CEntry{}, CBind: []CEntry{}, Data: map[string]int{}, RData: map[string]int{}, Res: map[string]bool{}, ResA: map[string]bool{}}
+		Nid: len(s.idCtr), CSub: []CEntry{}, CBind: []CEntry{}, Data: map[string]int{}, RData: map[string]int{}, Res: map[string]bool{}, ResA: map[string]bool{}}
 	for _, pn := range s.topo.Peers {
 		p := s.peers[pn]
 		st.Known[pn] = []string{}
@@ -480,6 +586,22 @@ func (s *System) project() *AbsState {
 			}
 			sort.Strings(st.Known[pn])
 			sort.Slice(st.Feats[pn], func(i, j int) bool { return st.Feats[pn][i].F < st.Feats[pn][j].F })
+		}
+	}
+	st.Ucs = []AbsUc{}
+	if d, ok := s.lfeat["NM"].DataCopy(model.FunctionTypeNodeManagementUseCaseData).(*model.NodeManagementUseCaseDataType); ok {
+		st.Ucs = absUcs(d)
+	}
+	st.HasUc = []UcKey{}
+	for _, e := range []string{"1", "1.1", "2"} {
+		if ent, ok := s.lents[e]; ok {
+			for _, ac := range []string{"CEM", "EV"} {
+				for _, n := range []string{"ucA", "ucB"} {
+					if ent.HasUseCaseSupport(model.UseCaseActorType(ac), model.UseCaseNameType(n)) {
+						st.HasUc = append(st.HasUc, UcKey{E: e, Actor: ac, Name: n})
+					}
+				}
+			}
 		}
 	}
 	// registries are read per local feature so that entries of vanished peers are still seen
@@ -589,4 +711,95 @@ func topFrames(stack []byte) string {
 		}
 	}
 	return strings.Join(fr, " < ")
+}
+
+// ---------- requests and callbacks (C14) ----------
+
+func (s *System) idOf(ctr uint64) int {
+	for i, c := range s.idCtr {
+		if c == ctr {
+			return i + 1
+		}
+	}
+	s.idCtr = append(s.idCtr, ctr)
+	return len(s.idCtr)
+}
+
+func (s *System) fired(k string, cb int, kind string, msg api.ResponseMessage) {
+	h := 0
+	for i, c := range s.idCtr {
+		if c == uint64(msg.MsgCounterReference) {
+			h = i + 1
+		}
+	}
+	good := false
+	a := s.curRecv
+	if a != nil {
+		p := s.peers[a.str("p")]
+		good = msg.FeatureRemote != nil && !isNilIface(msg.FeatureRemote) && s.remoteName(p, msg.FeatureRemote.Address()) == a.str("c") &&
+			msg.FeatureLocal != nil && !isNilIface(msg.FeatureLocal) && s.localName(msg.FeatureLocal.Address()) == k
+		switch d := msg.Data.(type) {
+		case *model.ResultDataType:
+			want := map[string]int{"res0": 0, "res1": 1}[a.str("pl")]
+			good = good && a.str("cls") == "result" && d != nil && d.ErrorNumber != nil && int(*d.ErrorNumber) == want
+		default:
+			good = good && a.str("cls") == "reply" && dataValAny(msg.Data) == a.num("v")
+		}
+	}
+	s.cbMu.Lock()
+	s.cbLog = append(s.cbLog, CbFire{K: k, Cb: cb, Kind: kind, H: h, Good: good})
+	s.cbMu.Unlock()
+}
+
+func dataValAny(d any) int { return dataVal("", d) }
+
+// four distinct function literals (the stack compares code pointers to refuse "the same callback")
+func (s *System) respCb1(k string) func(api.ResponseMessage) {
+	return func(m api.ResponseMessage) { s.fired(k, 1, "resp", m) }
+}
+func (s *System) respCb2(k string) func(api.ResponseMessage) {
+	return func(m api.ResponseMessage) { s.fired(k, 2, "resp", m) }
+}
+func (s *System) resCb1(k string) func(api.ResponseMessage) {
+	return func(m api.ResponseMessage) { s.fired(k, 1, "res", m) }
+}
+func (s *System) resCb2(k string) func(api.ResponseMessage) {
+	return func(m api.ResponseMessage) { s.fired(k, 2, "res", m) }
+}
+
+func (s *System) drainCbf() []CbFire {
+	s.cbMu.Lock()
+	defer s.cbMu.Unlock()
+	r := s.cbLog
+	s.cbLog = nil
+	if r == nil {
+		r = []CbFire{}
+	}
+	sort.Slice(r, func(i, j int) bool {
+		return fmt.Sprint(r[i]) < fmt.Sprint(r[j])
+	})
+	return r
+}
+
+// quiesce waits until every goroutine the stack spawned for callbacks / application handlers has finished:
+// the goroutine count is back at the baseline for two consecutive polls (no fixed sleeps)
+func (s *System) quiesce() {
+	if runtime.NumGoroutine() <= s.baseG {
+		return
+	}
+	deadline := time.Now().Add(10 * time.Second)
+	ok := 0
+	for time.Now().Before(deadline) {
+		if runtime.NumGoroutine() <= s.baseG {
+			ok++
+			if ok >= 2 {
+				return
+			}
+		} else {
+			ok = 0
+		}
+		runtime.Gosched()
+		time.Sleep(50 * time.Microsecond)
+	}
+	panic("quiescence watchdog expired")
 }
